@@ -5,6 +5,9 @@ ROOT = os.path.dirname(os.path.dirname(os.path.abspath(__file__)))
 BASE = "cd /repo && /venv/bin/python -m pytest -ra -q -p no:cacheprovider --timeout=900 --continue-on-collection-errors"
 TRUST = ("TLC 1.8 (32-bit exact integer arithmetic); gamma/alpha of vf/core.py (one correctly rounded division / sqrt / "
          "atan2 per concretised component); NumPy matmul/det/norm in validity checks; CPython.")
+FORMS = (" While the check runs, every public callable it drives is also called with the same values in the other argument forms "
+         "enumerated by TLC from ArgumentForms.tla (lists, tuples, strided / Fortran-ordered arrays, option strings in another case) and "
+         "must give the same answer (vf/forms.py).")
 CHECKS = {}
 NA = {}
 
@@ -38,7 +41,7 @@ for pid in props:
             "evidence_file": "/verif/evidence/%s.json" % pid,
             "replay_cmd_template": "./check %s --replay {path}" % pid,
             "engine": "tla-conformance",
-            "level_claimed": {"category": "model_checking", "text": c["text"], "design_ref": c["ref"]},
+            "level_claimed": {"category": "model_checking", "text": c["text"] + FORMS, "design_ref": c["ref"]},
             "level_note": c["note"],
             "technique": c["technique"],
         })
